@@ -53,6 +53,7 @@ type options struct {
 	nondetSrc string
 	batch     int
 	yieldAll  bool
+	runsFile  string
 }
 
 func parseFlags(args []string) *options {
@@ -77,6 +78,7 @@ func parseFlags(args []string) *options {
 	fs.StringVar(&o.nondetSrc, "nondet", "/verif/harness/nondet/nondet.go", "source of package nondet")
 	fs.IntVar(&o.batch, "batch", 48, "paths per job handed to a worker")
 	fs.BoolVar(&o.yieldAll, "yield-all", false, "schedule at every load/store, not only those in falco code")
+	fs.StringVar(&o.runsFile, "runs", "", "JSON list of runs [{entry, params, fuel, preempt, timeout_s}] explored one after the other with one worker pool")
 	fs.Parse(args)
 	return o
 }
@@ -196,14 +198,40 @@ func load(o *options) *loaded {
 	return &loaded{prog: prog, pkg: spkgs[0], hdr: hdr}
 }
 
-func (l *loaded) job(o *options) *interp.Job {
-	extra := map[string]bool{}
-	for _, p := range l.hdr.interpret {
-		extra[p] = true
-	}
-	deny := map[string]bool{}
-	for _, p := range l.hdr.deny {
-		deny[p] = true
+type runSpec struct {
+	Entry    string         `json:"entry"`
+	Params   map[string]int `json:"params"`
+	Fuel     int64          `json:"fuel"`
+	Preempt  int            `json:"preempt"`
+	TimeoutS int            `json:"timeout_s"`
+	MaxPaths int            `json:"max_paths"`
+}
+
+func readRuns(o *options) []runSpec {
+	if o.runsFile != "" {
+		b, err := os.ReadFile(o.runsFile)
+		if err != nil {
+			fatal("read runs: %v", err)
+		}
+		var rs []runSpec
+		if err := json.Unmarshal(b, &rs); err != nil {
+			fatal("parse runs: %v", err)
+		}
+		for i := range rs {
+			if rs[i].Fuel == 0 {
+				rs[i].Fuel = o.fuel
+			}
+			if rs[i].Preempt == 0 {
+				rs[i].Preempt = o.preempt
+			}
+			if rs[i].TimeoutS == 0 {
+				rs[i].TimeoutS = int(o.timeout.Seconds())
+			}
+			if rs[i].Params == nil {
+				rs[i].Params = map[string]int{}
+			}
+		}
+		return rs
 	}
 	params := map[string]int{}
 	for _, p := range o.params {
@@ -213,6 +241,18 @@ func (l *loaded) job(o *options) *interp.Job {
 			fatal("bad -param %s", p)
 		}
 		params[k[0]] = v
+	}
+	return []runSpec{{Entry: o.entry, Params: params, Fuel: o.fuel, Preempt: o.preempt, TimeoutS: int(o.timeout.Seconds()), MaxPaths: o.maxPaths}}
+}
+
+func (l *loaded) job(o *options, rs runSpec) *interp.Job {
+	extra := map[string]bool{}
+	for _, p := range l.hdr.interpret {
+		extra[p] = true
+	}
+	deny := map[string]bool{}
+	for _, p := range l.hdr.deny {
+		deny[p] = true
 	}
 	interp.Intercepts = map[string]*ssa.Function{}
 	for name, h := range l.hdr.intercepts {
@@ -224,20 +264,21 @@ func (l *loaded) job(o *options) *interp.Job {
 	}
 	interp.YieldEverywhere = o.yieldAll
 	return &interp.Job{
-		Prog: l.prog, Pkg: l.pkg, Entry: o.entry, Fuel: o.fuel,
+		Prog: l.prog, Pkg: l.pkg, Entry: rs.Entry, Fuel: rs.Fuel,
 		Interpret: func(p string) bool {
 			if deny[p] {
 				return false
 			}
 			return strings.HasPrefix(p, modPath) || interpretStd[p] || extra[p]
 		},
-		SolverCmd: strings.Fields(o.solver), TimeoutMS: o.solverTO, Params: params, MaxPreempt: o.preempt, Debug: o.debug,
+		SolverCmd: strings.Fields(o.solver), TimeoutMS: o.solverTO, Params: rs.Params, MaxPreempt: rs.Preempt, Debug: o.debug,
 	}
 }
 
 // ---- worker protocol
 
 type jobMsg struct {
+	Run    int      `json:"run"`
 	Prefix []string `json:"prefix"`
 	Budget int      `json:"budget"`
 }
@@ -275,8 +316,12 @@ func statsOf(e *interp.Explorer) *stats {
 
 func workerMain(o *options) {
 	l := load(o)
-	j := l.job(o)
-	e := interp.NewExplorer(j)
+	runs := readRuns(o)
+	jobs := make([]*interp.Job, len(runs))
+	for i, rs := range runs {
+		jobs[i] = l.job(o, rs)
+	}
+	e := interp.NewExplorer(jobs[0])
 	defer e.Close()
 	in := bufio.NewReaderSize(os.Stdin, 1<<20)
 	out := bufio.NewWriter(os.Stdout)
@@ -295,6 +340,8 @@ func workerMain(o *options) {
 		var rep replyMsg
 		stack := [][]string{jm.Prefix}
 		n := 0
+		j := jobs[jm.Run]
+		e.Params = j.Params
 		for len(stack) > 0 && n < jm.Budget {
 			p := stack[len(stack)-1]
 			stack = stack[:len(stack)-1]
@@ -340,6 +387,7 @@ type workerProc struct {
 	in   io.WriteCloser
 	out  *bufio.Reader
 	last *stats
+	dead bool
 }
 
 func startWorker(args []string) (*workerProc, error) {
@@ -390,193 +438,372 @@ func addStats(a *stats, b *stats) {
 	merge(&a.Intercepted, b.Intercepted)
 }
 
-func runMain(o *options, rawArgs []string) {
-	t0 := time.Now()
-	hdr, _ := readHeader(o.harness)
-	sum := &summary{Entry: o.entry, Harness: o.harness, Kinds: map[string]int{}, Cover: map[string]int{}, Params: map[string]int{},
-		Intercepts: hdr.intercepts, Solver: o.solver, Fuel: o.fuel, Preempt: o.preempt}
-	for _, p := range o.params {
-		k := strings.SplitN(p, "=", 2)
-		v, _ := strconv.Atoi(k[1])
-		sum.Params[k[0]] = v
-	}
+// pool of worker processes shared by the runs of one invocation.
+type pool struct {
+	o       *options
+	rawArgs []string
+	mu      sync.Mutex
+	workers []*workerProc
+}
 
-	if o.concrete != "" {
-		runConcrete(o, sum, t0)
-		return
-	}
-
-	var mu sync.Mutex
-	cond := sync.NewCond(&mu)
-	queue := [][]string{nil}
-	busy := 0
-	stop := false
-	deadline := t0.Add(o.timeout)
-	var workers []*workerProc
-	var wg sync.WaitGroup
-	seenViolation := map[string]int{}
-	seenProblem := map[string]int{}
-
-	absorb := func(rep *replyMsg) {
-		for _, r := range rep.Results {
-			sum.Kinds[r.Kind]++
-			if r.Final {
-				sum.Paths++
-				sum.Decisions += int64(len(strings.Fields(r.Prefix)))
-				for _, c := range r.Cover {
-					sum.Cover[c]++
-				}
+func (p *pool) add(n int) {
+	var nw []*workerProc
+	var swg sync.WaitGroup
+	var smu sync.Mutex
+	for k := 0; k < n; k++ {
+		swg.Add(1)
+		go func() {
+			defer swg.Done()
+			if w, err := startWorker(p.rawArgs); err == nil {
+				smu.Lock()
+				nw = append(nw, w)
+				smu.Unlock()
+			} else {
+				fmt.Fprintln(os.Stderr, "symgo:", err)
 			}
-			switch r.Kind {
-			case interp.KOK, interp.KAssume:
-				if r.Kind == interp.KOK && (len(sum.Samples) < 24 || (sum.Paths%97 == 0 && len(sum.Samples) < 400)) {
-					r.Stack = nil
-					sum.Samples = append(sum.Samples, r)
-				}
-			case interp.KAssert, interp.KPanic, interp.KRuntime, interp.KDeadlock, interp.KRace:
-				key := r.Kind + "|" + r.Msg + "|" + r.Where
-				seenViolation[key]++
-				if seenViolation[key] <= 6 && len(sum.Violations) < 2000 {
-					sum.Violations = append(sum.Violations, r)
-				}
-			default:
-				key := r.Kind + "|" + firstLine(r.Msg)
-				seenProblem[key]++
-				if seenProblem[key] <= 3 && len(sum.Problems) < 200 {
-					sum.Problems = append(sum.Problems, r)
-				}
+		}()
+	}
+	swg.Wait()
+	p.mu.Lock()
+	p.workers = append(p.workers, nw...)
+	p.mu.Unlock()
+}
+
+func (p *pool) close() {
+	for _, w := range p.workers {
+		w.in.Close()
+		w.cmd.Process.Kill()
+		w.cmd.Wait()
+	}
+}
+
+func subStats(a, b *stats) stats {
+	if a == nil {
+		return stats{}
+	}
+	if b == nil {
+		b = &stats{}
+	}
+	d := stats{Paths: a.Paths - b.Paths, Instrs: a.Instrs - b.Instrs, InitInstrs: a.InitInstrs - b.InitInstrs, Queries: a.Queries - b.Queries,
+		Sat: a.Sat - b.Sat, Unsat: a.Unsat - b.Unsat, Unknown: a.Unknown - b.Unknown, Cached: a.Cached - b.Cached, Concretized: a.Concretized - b.Concretized,
+		Switches: a.Switches - b.Switches, Approx: a.Approx - b.Approx, SolverS: a.SolverS - b.SolverS}
+	sub := func(x, y map[string]int64) map[string]int64 {
+		r := map[string]int64{}
+		for k, v := range x {
+			if v-y[k] != 0 {
+				r[k] = v - y[k]
+			}
+		}
+		return r
+	}
+	d.FuncCalls, d.ExtCalls, d.Intercepted = sub(a.FuncCalls, b.FuncCalls), sub(a.ExtCalls, b.ExtCalls), sub(a.Intercepted, b.Intercepted)
+	return d
+}
+
+// runState is the exploration state of one run (entry + parameters).
+type runState struct {
+	idx      int
+	rs       runSpec
+	sum      *summary
+	queue    [][]string
+	busy     int
+	started  time.Time
+	deadline time.Time
+	stop     bool
+	done     bool
+	seenV    map[string]int
+	seenP    map[string]int
+	serving  map[*workerProc]bool
+}
+
+func (r *runState) absorb(rep *replyMsg) {
+	sum := r.sum
+	for _, x := range rep.Results {
+		sum.Kinds[x.Kind]++
+		if x.Final {
+			sum.Paths++
+			sum.Decisions += int64(len(strings.Fields(x.Prefix)))
+			for _, c := range x.Cover {
+				sum.Cover[c]++
+			}
+		}
+		switch x.Kind {
+		case interp.KOK, interp.KAssume:
+			if x.Kind == interp.KOK && (len(sum.Samples) < 24 || (sum.Paths%97 == 0 && len(sum.Samples) < 400)) {
+				x.Stack = nil
+				sum.Samples = append(sum.Samples, x)
+			}
+		case interp.KAssert, interp.KPanic, interp.KRuntime, interp.KDeadlock, interp.KRace:
+			key := x.Kind + "|" + x.Msg + "|" + x.Where
+			r.seenV[key]++
+			if r.seenV[key] <= 6 && len(sum.Violations) < 2000 {
+				sum.Violations = append(sum.Violations, x)
+			}
+		default:
+			key := x.Kind + "|" + firstLine(x.Msg)
+			r.seenP[key]++
+			if r.seenP[key] <= 3 && len(sum.Problems) < 200 {
+				sum.Problems = append(sum.Problems, x)
 			}
 		}
 	}
+}
+
+// exploreAll explores every run on the shared pool.  Workers take work from
+// the lowest-numbered run that has any, so runs finish roughly in order while
+// idle workers already start on later ones.
+func (p *pool) exploreAll(runs []runSpec, hdr *header) []*summary {
+	o := p.o
+	var mu sync.Mutex
+	cond := sync.NewCond(&mu)
+	states := make([]*runState, len(runs))
+	for i, rs := range runs {
+		states[i] = &runState{idx: i, rs: rs, queue: [][]string{nil}, seenV: map[string]int{}, seenP: map[string]int{}, serving: map[*workerProc]bool{},
+			sum: &summary{Entry: rs.Entry, Harness: o.harness, Kinds: map[string]int{}, Cover: map[string]int{}, Params: rs.Params,
+				Intercepts: hdr.intercepts, Solver: o.solver, Fuel: rs.Fuel, Preempt: rs.Preempt}}
+	}
+	allDone := func() bool {
+		for _, r := range states {
+			if !r.done {
+				return false
+			}
+		}
+		return true
+	}
+	finishRun := func(r *runState) {
+		r.done = true
+		r.sum.Complete = !r.stop && len(r.queue) == 0
+		if !r.sum.Complete && r.sum.Why == "" {
+			r.sum.Why = "stopped"
+		}
+		r.sum.WallS = time.Since(r.started).Seconds()
+		r.sum.Workers = len(r.serving)
+		sort.Slice(r.sum.Violations, func(i, j int) bool { return r.sum.Violations[i].Msg < r.sum.Violations[j].Msg })
+		fmt.Fprintf(os.Stderr, "symgo %s %v: complete=%v paths=%d kinds=%v queries=%d solver=%.1fs instrs=%d workers=%d wall=%.1fs %s\n",
+			r.sum.Entry, r.sum.Params, r.sum.Complete, r.sum.Paths, r.sum.Kinds, r.sum.Stats.Queries, r.sum.Stats.SolverS, r.sum.Stats.Instrs, r.sum.Workers, r.sum.WallS, r.sum.Why)
+	}
+	// pick must be called with mu held
+	pick := func() *runState {
+		for _, r := range states {
+			if r.done {
+				continue
+			}
+			if r.stop {
+				r.queue = r.queue[:0]
+			}
+			if len(r.queue) == 0 {
+				if r.busy == 0 {
+					if r.started.IsZero() {
+						r.started = time.Now()
+					}
+					finishRun(r)
+				}
+				continue
+			}
+			return r
+		}
+		return nil
+	}
+	backlog := func() int {
+		n := 0
+		for _, r := range states {
+			if !r.done && !r.stop {
+				n += len(r.queue)
+			}
+		}
+		return n
+	}
+	var wg sync.WaitGroup
+	attached := map[*workerProc]bool{}
 
 	serve := func(w *workerProc) {
 		defer wg.Done()
 		enc := json.NewEncoder(w.in)
 		for {
 			mu.Lock()
-			for len(queue) == 0 && busy > 0 && !stop {
+			var r *runState
+			for {
+				r = pick()
+				if r != nil || allDone() {
+					break
+				}
 				cond.Wait()
 			}
-			if stop || (len(queue) == 0 && busy == 0) {
+			if r == nil {
 				mu.Unlock()
 				cond.Broadcast()
 				return
 			}
-			p := queue[len(queue)-1]
-			queue = queue[:len(queue)-1]
+			if r.started.IsZero() {
+				r.started = time.Now()
+				r.deadline = r.started.Add(time.Duration(r.rs.TimeoutS) * time.Second)
+			}
+			pf := r.queue[len(r.queue)-1]
+			r.queue = r.queue[:len(r.queue)-1]
 			budget := o.batch
-			if len(queue) < 2*o.workers {
+			if backlog() < 2*o.workers {
 				budget = 8
 			}
-			busy++
+			r.busy++
+			r.serving[w] = true
+			before := w.last
 			mu.Unlock()
 
-			enc.Encode(jobMsg{Prefix: p, Budget: budget})
+			enc.Encode(jobMsg{Run: r.idx, Prefix: pf, Budget: budget})
 			line, err := w.out.ReadBytes('\n')
 			mu.Lock()
-			busy--
+			r.busy--
 			if err != nil {
-				sum.Problems = append(sum.Problems, interp.PathResult{Kind: interp.KEngine, Msg: "worker process died while exploring", Prefix: strings.Join(p, " "), Final: true})
-				sum.Kinds[interp.KEngine]++
-				stop = true
-				sum.Why = "worker died"
+				r.sum.Problems = append(r.sum.Problems, interp.PathResult{Kind: interp.KEngine, Msg: "worker process died while exploring", Prefix: strings.Join(pf, " "), Final: true})
+				r.sum.Kinds[interp.KEngine]++
+				r.stop = true
+				r.sum.Why = "worker died"
+				w.dead = true
 				mu.Unlock()
 				cond.Broadcast()
 				return
 			}
 			var rep replyMsg
 			if err := json.Unmarshal(line, &rep); err != nil {
-				stop = true
-				sum.Why = "bad worker reply"
+				r.stop = true
+				r.sum.Why = "bad worker reply"
+				w.dead = true
 				mu.Unlock()
 				cond.Broadcast()
 				return
 			}
-			absorb(&rep)
+			r.absorb(&rep)
+			d := subStats(rep.Stats, before)
+			addStats(&r.sum.Stats, &d)
 			w.last = rep.Stats
-			queue = append(queue, rep.Pending...)
-			if o.maxPaths > 0 && sum.Paths >= o.maxPaths {
-				stop = true
-				sum.Why = "max-paths reached"
+			if !r.stop {
+				r.queue = append(r.queue, rep.Pending...)
 			}
-			if time.Now().After(deadline) {
-				stop = true
-				sum.Why = "wall-clock limit reached"
+			if r.rs.MaxPaths > 0 && r.sum.Paths >= r.rs.MaxPaths && !r.stop {
+				r.stop = true
+				r.sum.Why = "max-paths reached"
+			}
+			if time.Now().After(r.deadline) && !r.stop && (len(r.queue) > 0 || len(rep.Pending) > 0 || r.busy > 0) {
+				r.stop = true
+				r.sum.Why = "wall-clock limit reached"
 			}
 			mu.Unlock()
 			cond.Broadcast()
 		}
 	}
 
-	w0, err := startWorker(rawArgs)
-	if err != nil {
-		fatal("%v", err)
+	attach := func() { // mu held
+		p.mu.Lock()
+		for _, w := range p.workers {
+			if !attached[w] && !w.dead {
+				attached[w] = true
+				wg.Add(1)
+				go serve(w)
+			}
+		}
+		p.mu.Unlock()
 	}
-	sum.LoadS = time.Since(t0).Seconds()
-	workers = append(workers, w0)
-	wg.Add(1)
-	go serve(w0)
+	if len(p.workers) == 0 {
+		p.add(1)
+		if len(p.workers) == 0 {
+			fatal("no worker could be started")
+		}
+	}
+	mu.Lock()
+	attach()
+	mu.Unlock()
 
-	// grow the pool while there is a backlog
+	growDone := make(chan struct{})
 	go func() {
+		defer close(growDone)
 		for {
-			time.Sleep(300 * time.Millisecond)
+			time.Sleep(200 * time.Millisecond)
 			mu.Lock()
-			n := len(workers)
-			backlog := len(queue)
-			done := stop || (len(queue) == 0 && busy == 0)
+			n := 0
+			for _, w := range p.workers {
+				if !w.dead {
+					n++
+				}
+			}
+			bl := backlog()
+			done := allDone()
 			mu.Unlock()
 			if done {
 				return
 			}
-			if n < o.workers && backlog > 2*n {
-				add := o.workers - n
-				if add > 4 && n == 1 {
-					add = 4
-				}
-				var nw []*workerProc
-				var swg sync.WaitGroup
-				var smu sync.Mutex
-				for k := 0; k < add; k++ {
-					swg.Add(1)
-					go func() {
-						defer swg.Done()
-						if w, err := startWorker(rawArgs); err == nil {
-							smu.Lock()
-							nw = append(nw, w)
-							smu.Unlock()
-						}
-					}()
-				}
-				swg.Wait()
+			if n == 0 {
+				p.add(1)
 				mu.Lock()
-				for _, w := range nw {
-					workers = append(workers, w)
-					wg.Add(1)
-					go serve(w)
+				attach()
+				mu.Unlock()
+				continue
+			}
+			if n < o.workers && bl > n {
+				add := o.workers - n
+				if add > 5 && n == 1 {
+					add = 5
 				}
+				p.add(add)
+				mu.Lock()
+				attach()
 				mu.Unlock()
 			}
 		}
 	}()
-
 	wg.Wait()
 	mu.Lock()
-	sum.Complete = !stop && len(queue) == 0
-	if !sum.Complete && sum.Why == "" {
-		sum.Why = "stopped"
-	}
-	for _, w := range workers {
-		if w.last != nil {
-			addStats(&sum.Stats, w.last)
+	for _, r := range states {
+		if !r.done {
+			if r.started.IsZero() {
+				r.started = time.Now()
+			}
+			if len(r.queue) > 0 {
+				r.stop = true
+				r.sum.Why = "no worker left"
+			}
+			finishRun(r)
 		}
-		w.in.Close()
-		w.cmd.Process.Kill()
-		w.cmd.Wait()
 	}
-	sum.Workers = len(workers)
 	mu.Unlock()
-	finish(o, sum, t0)
+	cond.Broadcast()
+	<-growDone
+	var sums []*summary
+	for _, r := range states {
+		sums = append(sums, r.sum)
+	}
+	return sums
+}
+
+func runMain(o *options, rawArgs []string) {
+	t0 := time.Now()
+	hdr, _ := readHeader(o.harness)
+	runs := readRuns(o)
+	if o.concrete != "" {
+		sum := &summary{Entry: runs[0].Entry, Harness: o.harness, Kinds: map[string]int{}, Cover: map[string]int{}, Params: runs[0].Params,
+			Intercepts: hdr.intercepts, Solver: o.solver, Fuel: runs[0].Fuel, Preempt: runs[0].Preempt}
+		runConcrete(o, runs[0], sum, t0)
+		return
+	}
+	p := &pool{o: o, rawArgs: rawArgs}
+	defer p.close()
+	p.add(1)
+	loadS := time.Since(t0).Seconds()
+	sums := p.exploreAll(runs, hdr)
+	for _, s := range sums {
+		s.LoadS = loadS
+	}
+	var b []byte
+	if o.runsFile != "" {
+		b, _ = json.MarshalIndent(map[string]any{"runs": sums}, "", " ")
+	} else {
+		b, _ = json.MarshalIndent(sums[0], "", " ")
+	}
+	if o.out != "" {
+		os.WriteFile(o.out, b, 0o644)
+	} else {
+		os.Stdout.Write(b)
+		fmt.Println()
+	}
 }
 
 func firstLine(s string) string {
@@ -586,7 +813,7 @@ func firstLine(s string) string {
 	return s
 }
 
-func runConcrete(o *options, sum *summary, t0 time.Time) {
+func runConcrete(o *options, rs runSpec, sum *summary, t0 time.Time) {
 	b, err := os.ReadFile(o.concrete)
 	if err != nil {
 		fatal("read model: %v", err)
@@ -611,7 +838,7 @@ func runConcrete(o *options, sum *summary, t0 time.Time) {
 		}
 	}
 	l := load(o)
-	j := l.job(o)
+	j := l.job(o, rs)
 	e := interp.NewExplorer(j)
 	defer e.Close()
 	// free (scheduling) choices are taken from the recorded decision vector
